@@ -1,5 +1,5 @@
 # replay of a bounded stand-in violation (C16): re-run native/c16_states.py
 import sys
-print('n=2 pure=False: fock_prob([0, 1]) = 0.34493 on fock, 0.13075 on gaussian')
+print('n=2 pure=False cat: quad_expectation(1,0.0) = [0.52073, 1.89214] on bosonic, [-0.02052, 1.74967] on fock')
 print('REPLAY-VIOLATION')
 sys.exit(1)
